@@ -4,6 +4,7 @@ from harness.scen import call, LOOK_TO
 
 class C15(scen.WorldProp):
     id = "C15"
+    fuzz_kinds = {"ring", "r_init", "r_bell"}
     lean_module = "Wheatley.Props.C15"
     theorems = ["Wheatley.C15.who_leads",
                 "Wheatley.C15.anchor_is_look_to_plus_3",
@@ -94,6 +95,10 @@ class C15(scen.WorldProp):
             early_others = rng.random() < 0.3
             if human_leads:
                 events.append([t_lead, "strike", leader])
+                if d > 0.5 and rng.random() < 0.3:
+                    # Look To is called again while everybody is still waiting for the leader
+                    events.append(call(t0 + rng.uniform(0.1, d - 0.1), LOOK_TO))
+                    early_others = True       # (strikes heard before the second Look To are forgotten by it)
             base = t_lead if human_leads else t0 + 3
             for b in others:
                 p = opening.index(b)
@@ -103,6 +108,7 @@ class C15(scen.WorldProp):
                     events.append([base + I * p + rng.uniform(-0.02, 0.02), "strike", b])
             end = base + I * (N + 2)
             kind = rng.choice(["wait", "regression"])
+            events.sort(key=lambda e: e[0])
             sc = {"start": 1000.0, "end": end, "tower_size": N, "events": events,
                   "on_join": scen.humans_on_join(humans),
                   "bot": scen.bot_cfg(spec), "rhythm": scen.rhythm_cfg(kind, peal_speed=ps)}
